@@ -474,6 +474,22 @@ func body(s *simrt.Sim, tier string) {
 			}
 		}
 	}
+	if realOrigins && nZones == 2 && (s.Tape.Variant/50)%2 == 1 {
+		// the same tag goes to BOTH remote zones (one task per destination, run
+		// concurrently): the same blobs are pushed from the same local origins
+		// to two different remote clusters at the same time
+		for _, tr := range append([]*tagRec{}, w.tags...) {
+			other := w.zones[0]
+			if tr.z == other {
+				other = w.zones[1]
+			}
+			tag, d, deps := tr.tag, tr.digest, tr.deps
+			twin := &tagRec{tag: tag, digest: d, deps: deps, z: other}
+			twin.task = func() *tagreplication.Task { return tagreplication.NewTask(tag, d, deps, other.bi, 0) }
+			w.tags = append(w.tags, twin)
+		}
+		s.Probe("real_origins_two_destinations")
+	}
 	if realOrigins {
 		// every dependency is in the local backend; most are also in the local
 		// origins' caches already (the others make replicate-to-remote answer 202
